@@ -422,3 +422,48 @@ Proof.
   intros HE HK Hne Hok. apply approximate_bezier_L1_depth19.
   apply (within32_bounded E); assumption.
 Qed.
+
+(* ---------- not vacuous ---------- *)
+
+(* what `0,0,0,2,0,B|131072:-131072|-131072:131072|131072:131072,1,100`
+   decodes to (control points are stored relative to the slider position):
+   four control points, |x| <= 2^17, 3 * 2^17 <= 2^19; far from flat *)
+Definition ex_seg : list Pos :=
+  [mkPos (S.of_Z 0) (S.of_Z 0); mkPos (S.of_Z 131072) (S.of_Z (-131072));
+   mkPos (S.of_Z (-131072)) (S.of_Z 131072); mkPos (S.of_Z 131072) (S.of_Z 131072)].
+
+Lemma coord_ok_SF E (x : F32) s m e :
+  B2SF x = SpecFloat.S754_finite s m e -> IZR (Zpos m) * bp e <= bp E -> coord_ok E x.
+Proof.
+  intros HS Hb. split; [rewrite <- is_finite_SF_B2SF, HS; reflexivity|].
+  rewrite <- SF2R_B2SF, HS. unfold SF2R. rewrite <- F2R_Zabs, abs_cond_Zopp. unfold F2R. cbn [Fnum Fexp Z.abs].
+  exact Hb.
+Qed.
+
+Lemma coord_ok_zero E : coord_ok E (S.of_Z 0).
+Proof.
+  split; [rewrite <- is_finite_SF_B2SF; vm_compute; reflexivity|].
+  rewrite <- SF2R_B2SF. replace (B2SF (S.of_Z 0)) with (SpecFloat.S754_zero false) by (vm_compute; reflexivity).
+  cbn [SF2R]. rewrite Rabs_R0. apply bpow_ge_0.
+Qed.
+
+Lemma ex_seg_ok : Forall (point_ok 17) ex_seg.
+Proof.
+  assert (Hp : coord_ok 17 (S.of_Z 131072))
+    by (apply (coord_ok_SF 17 _ false 8388608 (-6)); [vm_compute; reflexivity|cbn; lra]).
+  assert (Hn : coord_ok 17 (S.of_Z (-131072)))
+    by (apply (coord_ok_SF 17 _ true 8388608 (-6)); [vm_compute; reflexivity|cbn; lra]).
+  pose proof (coord_ok_zero 17) as Hz.
+  unfold ex_seg. repeat (apply Forall_cons; [split; assumption|]). apply Forall_nil.
+Qed.
+
+Lemma ex_seg_not_flat : flat_enough ex_seg = false.
+Proof. vm_compute. reflexivity. Qed.
+
+Lemma ex_seg_dump :
+  map dump_pos ex_seg = [[0; 0]; [1207959552; 3355443200]; [3355443200; 1207959552]; [1207959552; 1207959552]]%Z.
+Proof. vm_compute. reflexivity. Qed.
+
+Example ex_seg_terminates path :
+  exists path', approximate_bezier_L1 bezier_fuel path ex_seg tt = Done (path', tt).
+Proof. apply (T01g_ieee_bounded 17); [lia|vm_compute; discriminate|discriminate|exact ex_seg_ok]. Qed.
